@@ -136,8 +136,13 @@ class Flow:
         if l == 0:
             return False
         for (ubb, uidx, role) in self.uses[l]:
-            if role != 'drop':
-                return False
+            if role == 'drop':
+                continue
+            if uidx == 'term':
+                t2 = self.body.blocks[ubb]['term']
+                if t2['k'] == 'call' and callee(t2) in ('std::mem::drop', 'core::mem::drop'):
+                    continue
+            return False
         return True
 
     # ------------------------------------------------------------ outcome edges
